@@ -182,4 +182,4 @@ def cases(draw):
 
 def run(ctx):
     q = ctx.tier == "quick"
-    run_hypothesis(ctx, cases(), oracle, 50 if q else 700, "C06")
+    run_hypothesis(ctx, cases(), oracle, 50 if q else 400, "C06")
